@@ -828,6 +828,12 @@ func c15Gen(t *rapid.T) c15Case {
 			spec = rapid.SampledFrom([]string{"gene", "CDS", "misc_feature", "/gene=a", "gene/gene=b", "/label=f0", "/label=f[12]", "tRNA"}).Draw(t, "sel")
 		}
 		mod := rapid.SampledFrom([]string{"", "", "@^", "@$", "@^..^+1", "@$-1..$", "@^-1..$", "@^..$+1", "@^+1..$"}).Draw(t, "mod")
+		if rapid.IntRange(0, 2).Draw(t, "freemod") == 0 {
+			// offsets of any size that fits: inside a multi-segment feature they land in any segment
+			k1 := drawCount(t, 0, 24, 300, "k1")
+			k2 := drawCount(t, 0, 24, 300, "k2")
+			mod = fmt.Sprintf(rapid.SampledFrom([]string{"@^+%[1]d", "@$-%[1]d", "@^..^+%[1]d", "@$-%[1]d..$", "@^+%[1]d..^+%[3]d", "@$-%[3]d..$-%[1]d", "@^+%[1]d..$-%[2]d", "@^+%[1]d..$", "@^..$-%[2]d"}).Draw(t, "modform"), minInt(k1, k2), k2, maxInt(k1, k2))
+		}
 		return spec + mod
 	}
 	c.Locators = []string{genLocator()}
@@ -865,6 +871,27 @@ func TestC15(t *testing.T) {
 		}
 	}
 	e.done(true)
+	// multi-segment scenarios: features of three and four segments (short inner segments, either strand) located with
+	// modifiers whose bounds fall into every segment and onto every junction
+	em := enumPart(t, c15Prop, st, "multi-segment-scenarios")
+	mfeats := []Feat{
+		{Key: "CDS", Loc: ljn(lrg(0, 20), lrg(30, 35), lrg(40, 60)), Quals: [][]string{{"label", "m0"}, {"gene", "a"}}},
+		{Key: "mRNA", Loc: lco(ljn(lrg(2, 9), lrg(12, 14), lrg(20, 23), lrg(44, 58))), Quals: [][]string{{"label", "m1"}, {"gene", "b"}}},
+	}
+	var mods []string
+	for _, k := range []int{0, 1, 5, 7, 9, 12, 19, 20, 21, 24, 25, 26, 30, 44} {
+		mods = append(mods, fmt.Sprintf("@^+%d", k), fmt.Sprintf("@$-%d", k), fmt.Sprintf("@^..^+%d", k), fmt.Sprintf("@$-%d..$", k), fmt.Sprintf("@^+%d..$-1", k))
+	}
+	for _, cmd := range []string{"delete", "insert", "split", "rotate", "extract"} {
+		for _, key := range []string{"CDS", "mRNA"} {
+			for _, m := range mods {
+				if !em.try(c15Case{Cmd: cmd, L: 64, Circ: cmd == "rotate" || cmd == "split", Feats: mfeats, Locators: []string{key + m}, GuestLen: 2}) {
+					return
+				}
+			}
+		}
+	}
+	em.done(true)
 	n := pick(1600, 32000) / shards()
 	rapidPart(t, c15Prop, st, "rapid", maxInt(n, 10), c15Gen)
 	if t.Failed() {
